@@ -16,9 +16,11 @@ def mergeTail (fuel : Nat) (h : Heap K V) (pid lid : Nat) : Option (Heap K V) :=
   let p' ← h.get pid
   if Gen.Tree.mergeRootCheck pid h.root then
     if Gen.Tree.mergeRootEmpty p'.n then
-      let h ← h.step (.setParent lid none) [lid]
-      let h ← h.step (.drop pid) []
-      pure (Heap.event { h with root := lid } "collapse")
+      let h ← (if Gen.Tree.mergeCollapseClearsParent then h.step (.setParent lid none) [lid] else some h)
+      if Gen.Tree.mergeCollapseSetsRoot then
+        let h ← h.step (.drop pid) []
+        pure (Heap.event { h with root := lid } "collapse")
+      else pure h
     else pure h
   else if Gen.Tree.mergeCascades p'.n false then
     let hs ← Heap.steal h pid
@@ -155,7 +157,8 @@ theorem mergeFrom_step {h : Heap K V} {p : Option Nat} {id li ri a xid : Nat} {k
   refine ⟨h1.event ("merge-" ++ Heap.level xl), ?_, (hsamea.trans hsame1).trans (same_event _ _), ?_, ?_, ?_⟩
   · intro fuel
     unfold Heap.mergeFrom
-    simp only [bind, pure, hsib, hnl, hch, hl, hr, hlp, hp, hidxOf, Option.bind_some, hrepar', hstep]
+    simp only [bind, pure, hsib, hnl, callArgs_merge, hch, Option.map_some, hl, hr, hlp, hp, hidxOf, Option.bind_some,
+      hrepar', hstep]
     rfl
   · show Sub h1.get p _
     refine sub_mk.mpr ⟨p', ?_, q1.trans hpp, ?_, ?_⟩
